@@ -223,11 +223,11 @@ def jobs(prop, tier):
                    rtti=True, noop_containing=['_ZNSt8_Rb_tree+8_M_eraseEPSt13_Rb_tree_node'], solver=PORTFOLIO, timeout=1500 if T else 280)
         J.append(Job('C17', 'order', 'C17_poll.cpp', defs={'H_ORDER': None}, unwind=6, shape='K', bounds='three messages with arbitrary 32-bit virtual time, priority 0..255 and 63-bit last poll time', **MSG))
         J.append(Job('C17', 'setprio', 'C17_poll.cpp', defs={'H_SETPRIO': None}, unwind=6, shape='S', bounds='one setPollPriority(0..11) on a message with any priority 0..9, virtual time within the window, any passive/scan/condition flags', **MSG))
-        for m in (1, 2, 3) + ((4,) if T else ()):
+        for m in (1, 2, 3):   # 4 messages: the rank loops alone need unwind 12 and the job gave no verdict; outside the claim
             J.append(Job('C17', 'next%d' % m, 'C17_poll.cpp', defs={'H_NEXT': None, 'M': m}, unwind=m + 4, shape='S',
                          bounds='one getNextPoll from every heap-ordered queue of %d message(s), priorities 1..9, virtual times from 30 behind to one period ahead of the last polled one, any last poll times, any clock step' % m, **MSG))
-        for m in (0,) + ((1, 2) if T else ()):   # one and two queued messages: no verdict within the quick cap (heap sift over symbolic pointers)
-            J.append(Job('C17', 'add%d' % m, 'C17_poll.cpp', defs={'H_ADD': None, 'M': m}, unwind=m + 5, shape='S',
+        for m in (0,):   # one and two queued messages: no verdict (5-17 GB, heap sift over symbolic pointers); outside the claim
+            J.append(Job('C17', 'add%d' % m, 'C17_poll.cpp', defs={'H_ADD': None, 'M': m}, unwind=m + 5, shape='S', mem_gb=6,
                          bounds='one addPollMessage(front or back) of a new message to every heap-ordered queue of %d message(s)' % m, **MSG))
     if prop == 'C16':
         pairs = [(1, 1), (1, 3), (2, 2), (2, 3), (2, 5), (1, 4), (3, 3)] if not T else [(a, b) for a in (1, 2, 3) for b in range(1, 8) if b >= a]
@@ -360,9 +360,9 @@ META = {
    assumptions=COMMON_ASSUME,
  ),
  'C17': dict(
-   level_text='Bounded model checking of the real poll scheduling code as inductive steps (Message::isLessPollWeight, Message::setPollPriority, MessageMap::getNextPoll, MessageMap::addPollMessage with the real std::priority_queue header code and the file-static virtual clock): the comparator is the documented strict weak order for all field values; from EVERY heap-ordered queue of up to 3 messages with priorities 1..9 one getNextPoll selects a message that is due first, advances its virtual time by exactly its priority, sets the virtual clock to the maximum, leaves the others untouched and the queue a duplicate-free heap, keeps the scheduling window invariant (no message more than one period ahead) and strictly decreases the waiting rank of every other message (so every message is selected again within a bounded number of selections, and since each selection costs exactly p ticks of virtual time the long-run frequency is proportional to 1/p); setPollPriority never places a message before clock+priority (no overtaking) and keeps the window invariant; adding a new message keeps the queue a duplicate-free heap.',
+   level_text='Bounded model checking of the real poll scheduling code as inductive steps (Message::isLessPollWeight, Message::setPollPriority, MessageMap::getNextPoll, MessageMap::addPollMessage with the real std::priority_queue header code and the file-static virtual clock): the comparator is the documented strict weak order for all field values; from EVERY heap-ordered queue of up to 3 messages with priorities 1..9 one getNextPoll selects a message that is due first, advances its virtual time by exactly its priority, sets the virtual clock to the maximum, leaves the others untouched and the queue a duplicate-free heap, keeps the scheduling window invariant (no message more than one period ahead) and strictly decreases the waiting rank of every other message (so every message is selected again within a bounded number of selections, and since each selection costs exactly p ticks of virtual time the long-run frequency is proportional to 1/p); setPollPriority never places a message before clock+priority (no overtaking) and keeps the window invariant; adding a new message to an empty queue keeps it a duplicate-free heap.',
    level_note='Message and MessageMap objects are constructed partially (poll fields, poll queue, mutex); the rest of these classes (string maps) is not needed by the poll code. Induction gap stated openly: the step assumes a heap-ordered queue; MessagePriorityQueue::push/remove erase an ALREADY QUEUED message from the middle of the vector without re-heapifying, which can leave a non-heap (observation OBS-C17-erase-breaks-heap); re-adding a queued message and removal are therefore outside the claim. Unsigned wrap of the virtual clock after 2^32 ticks is assumed away (window bound). BusHandler trigger of polling is outside.',
-   outside_claim='re-adding an already queued message / removal (erase from the middle of the heap), queues of more than 3 (thorough: 4) messages, 2^32 wrap of the virtual clock, message reload, BusHandler poll trigger',
+   outside_claim='re-adding an already queued message / removal (erase from the middle of the heap), adding to a non-empty queue (no verdict: 5-17 GB), queues of more than 3 messages, 2^32 wrap of the virtual clock, message reload, BusHandler poll trigger',
    assumptions=COMMON_ASSUME + ['queue vector is heap-ordered before the step (std::priority_queue representation invariant)', 'virtual times within [clock-30, clock+priority]'],
  ),
  'C08': dict(claimed=False, na_reason='MessageMap::find was attempted with partially constructed Message/MessageMap objects and hand-set vtable pointers (harness/C08_find.cpp: real createKey x2, find, getFirstAvailable, checkId against a linear-scan reference): it translates and runs, but every Message* comes out of a std::map node / std::vector<Message*> as a symbolic pointer, so m_id.size() is not a constant at any of the ~100 checkId call sites and each unwinds to the bound; no verdict within 280 s even for ONE definition with an empty ID. Same blow-up class as getAnswer (DESIGN 10.5). Not claimed; seed C08-chain-suffix-unchecked is missed.',
